@@ -14,7 +14,7 @@ pub fn run(tier: Tier) -> i32 {
     let lens: &[usize] = tier.pick(&[2, 3, 4, 5, 10, 25], &[2, 3, 4, 5, 6, 7, 8, 10, 15, 20, 25, 30, 35, 40]);
     let betas = [0.0, 0.1, 0.3, 0.5];
     let alphas = [0.0, 0.3, 0.6];
-    rep.set_rule("SCOPE: cepstrum lattice of C06 (scaled so (1+beta) x shape <= 2 Np) x beta {0,.1,.3,.5} x alpha {0,.3,.6} x vector lengths, plus very quiet and very loud frames (c0 -20, -30, 8); plus tilt-dominated spectra (|c1| in {1.2,1.5,1.8}, |c2| in {.2,.4}, all sign pairs) for which the emphasis can lower the energy; second pulse of a stationary 2-frame run through the real Vocoder; oracle: log|H_beta|-log|H_0|-beta*sum_{m>=2} c_m cos(m w~) constant over frequency within 0.01 Np, impulse-response energy within 1%, beta=0 and length 2 bit-identical to no postfilter; plus unvoiced frames: the noise-excited output equals the noise convolved with the pulse response measured on voiced frames; plus histories: the last frame after a linear glide between two cepstra over 8, 300 or 2500 (thorough: 12000) frames obeys the same two laws, and so do stationary frames after a first frame that differs from them only in the sign of one coefficient and one low mantissa bit (0..12) of a neighbour one or two places on; distinct = (length, alpha, beta, cepstrum); non-trivial = beta>0 and length>2");
+    rep.set_rule("SCOPE: cepstrum lattice of C06 (scaled so (1+beta) x shape <= 2 Np) x beta {0,.1,.3,.5} x alpha {0,.3,.6} x vector lengths, plus very quiet and very loud frames (c0 -20, -30, 8); plus tilt-dominated spectra (|c1| in {1.2,1.5,1.8}, |c2| in {.2,.4}, all sign pairs) for which the emphasis can lower the energy; second pulse of a stationary 2-frame run through the real Vocoder; oracle: log|H_beta|-log|H_0|-beta*sum_{m>=2} c_m cos(m w~) constant over frequency within 0.01 Np, impulse-response energy within 1%, beta=0 and length 2 bit-identical to no postfilter; plus a 400 Hz pulse train equal to the superposition of the pulse response measured at 20 Hz; plus unvoiced frames: the noise-excited output equals the noise convolved with the pulse response measured on voiced frames; plus histories: the last frame after a linear glide between two cepstra over 8, 300 or 2500 (thorough: 12000) frames obeys the same two laws, and so do stationary frames after a first frame that differs from them only in the sign of one coefficient and one low mantissa bit (0..12) of a neighbour one or two places on; distinct = (length, alpha, beta, cepstrum); non-trivial = beta>0 and length>2");
     rep.assume("lattice cepstra only; energy measured on the truncated pulse response (tail < 1e-7 of peak)");
     let mut cases: Vec<(usize, f64, f64, Vec<f64>)> = Vec::new();
     for &len in lens {
@@ -307,6 +307,89 @@ pub fn run(tier: Tier) -> i32 {
             }
         });
         rep.note("near_twin_frames", json!({"cases": twins.len(), "worst_energy_rel": *twin_worst.lock().unwrap()}));
+    }
+    // the filter is the same whatever the pitch: a pulse train at 400 Hz (period 40 samples, 20 pulses per frame) must be the
+    // superposition of the very pulse response measured at 20 Hz with the same beta (narrow low formants included, whose
+    // response rings over many periods)
+    {
+        let mut n_train = 0u64;
+        for &len in &[3usize, 6, 12, 25] {
+            for &alpha in &[0.0, 0.42] {
+                for &beta in &[0.0, 0.3, 0.5] {
+                    // a strong low formant: large first coefficients, alternating tail
+                    let mut c: Vec<f64> = (0..len).map(|m| if m == 0 { 0.2 } else { 0.9f64.powi(m as i32) * if m % 4 == 3 { -0.5 } else { 1.0 } }).collect();
+                    let mx = shape_max(&c, alpha);
+                    for m in 1..len {
+                        c[m] *= 1.3 / mx;
+                    }
+                    let rate = 16000usize;
+                    let t0 = rate / 20;
+                    let period = 40usize;
+                    let cc = c.clone();
+                    let r = catch(move || {
+                        let run = |lf0: f64| -> Vec<Vec<f64>> {
+                            let mut v = jbonsai::vocoder::Vocoder::new(cc.len(), 0, 0, false, rate, alpha, beta, 1.0, t0);
+                            (0..4)
+                                .map(|_| {
+                                    let mut buf = vec![0.0; t0];
+                                    v.synthesize(lf0, &cc, &[], &mut buf);
+                                    buf
+                                })
+                                .collect()
+                        };
+                        (run(20f64.ln()), run((rate as f64 / period as f64).ln()))
+                    });
+                    rep.eval(1);
+                    n_train += 1;
+                    let rp = json!({"vector_length": len, "alpha": alpha, "beta": beta, "cepstrum": c, "measure": "fourth frame of a 400 Hz pulse train vs the superposed 20 Hz pulse response"});
+                    let (single, train) = match r {
+                        Ok(x) => x,
+                        Err(p) => {
+                            rep.violation(format!("panic@{}", site_of(&p)), p, rp);
+                            continue;
+                        }
+                    };
+                    let h: Vec<f64> = single[2].iter().map(|x| x / (t0 as f64).sqrt()).collect();
+                    let peak = h.iter().fold(0.0f64, |a, b| a.max(b.abs()));
+                    let tail = h[t0 - 40..].iter().fold(0.0f64, |a, b| a.max(b.abs())) / peak.max(1e-300);
+                    if !(tail <= 1e-7) {
+                        rep.guard(false, &format!("pulse-train case len {} alpha {} beta {}: measured response too long (tail {:e})", len, alpha, beta, tail));
+                        continue;
+                    }
+                    let y = &train[3];
+                    // pulses every `period` samples; the phase (where in the frame the first one falls) is whatever fits best
+                    let amp = (period as f64).sqrt();
+                    let mut best = (f64::INFINITY, 0usize);
+                    for phase in 0..period {
+                        let mut err = 0.0f64;
+                        let mut ymax = 0.0f64;
+                        for n in 0..t0 {
+                            // pulses at phase + k*period for all k (also before the frame: k negative)
+                            let mut want = 0.0;
+                            let mut t = n as isize - phase as isize;
+                            // t mod period steps back through earlier pulses
+                            t = t.rem_euclid(period as isize);
+                            let mut lag = t as usize;
+                            while lag < t0 {
+                                want += amp * h[lag];
+                                lag += period;
+                            }
+                            err = err.max((y[n] - want).abs());
+                            ymax = ymax.max(y[n].abs());
+                        }
+                        let rel = err / ymax.max(1e-300);
+                        if rel < best.0 {
+                            best = (rel, phase);
+                        }
+                    }
+                    rep.cmp(t0 as u64);
+                    if !(best.0 <= 1e-6) {
+                        rep.violation("pulse-train", format!("a 400 Hz pulse train is not the superposition of the pulse response measured at 20 Hz (beta {}, len {}, alpha {}): relative deviation {:.3e} at the best phase {}", beta, len, alpha, best.0, best.1), rp);
+                    }
+                }
+            }
+        }
+        rep.note("pulse_train_cases", json!(n_train));
     }
     // the postfilter acts on the spectrum, whatever excites the filter: on unvoiced (noise-excited) frames the output must
     // be the noise convolved with the very pulse response measured on voiced frames with the same beta
